@@ -9,9 +9,14 @@ use crate::realrun::*;
 use crate::refint::{self, RefOpts, RefOutcome, RefTrace};
 use serde_json::{json, Value};
 
+pub mod binding;
 pub mod c01;
+pub mod determinism;
+pub mod digfile;
 pub mod dynamic;
+pub mod faults;
 pub mod hazard;
+pub mod text;
 pub mod values;
 
 pub struct Meta {
@@ -38,8 +43,16 @@ pub fn meta(prop: &str) -> Option<Meta> {
         "C08" => values::META_C08,
         "C10" => hazard::META_C10,
         "C17" => hazard::META_C17,
+        "C11" => binding::META_C11,
+        "C16" => digfile::META_C16,
+        "C09" => text::META_C09,
+        "C12" => text::META_C12,
+        "C20" => text::META_C20,
+        "C13" => faults::META_C13,
+        "C15" => determinism::META_C15,
         "C14" => dynamic::META_C14,
         "C18" => dynamic::META_C18,
+        "C19" => dynamic::META_C19,
         _ => return None,
     })
 }
@@ -57,8 +70,16 @@ pub fn run_case(prop: &str, index: u64, case_seed: u64, acc: &mut Acc) {
         "C08" => values::c08(case_seed, acc),
         "C10" => hazard::c10(case_seed, acc),
         "C17" => hazard::c17(case_seed, acc),
+        "C11" => binding::c11(case_seed, acc),
+        "C16" => digfile::c16(case_seed, acc),
+        "C09" => text::c09(case_seed, acc),
+        "C12" => text::c12(case_seed, acc),
+        "C20" => text::c20(case_seed, if acc.thorough { 8 } else { 4 }, acc),
+        "C13" => faults::c13(case_seed, acc),
+        "C15" => determinism::c15(case_seed, acc),
         "C14" => dynamic::c14(case_seed, acc),
         "C18" => dynamic::c18(case_seed, acc),
+        "C19" => dynamic::c19(case_seed, acc),
         _ => panic!("unknown property {prop}"),
     }
 }
@@ -70,7 +91,9 @@ pub fn run_exhaustive(prop: &str, tier: &str, acc: &mut Acc) -> Value {
         "C03" => dynamic::c03_exhaustive(acc),
         "C05" => dynamic::c05_exhaustive(tier, acc),
         "C08" => values::c08_exhaustive(tier, acc),
+        "C09" => text::c09_exhaustive(tier, acc),
         "C10" => hazard::c10_exhaustive(acc),
+        "C16" => digfile::c16_exhaustive(acc),
         _ => json!(null),
     }
 }
